@@ -182,9 +182,14 @@ func (am *assetMgr) loadRep(logger *slog.Logger, assetPath string, as *m.Adaptat
 	}
 	if !am.writeRepData {
 		ok, err := rp.loadFromJSON(logger, am.vodFS, am.repDataDir, assetPath)
-		if ok {
+		if ok && err == nil {
 			logger.Debug("Loaded representation data from JSON")
-			return &rp, err
+			return &rp, nil
+		}
+		if err != nil {
+			// A truncated or corrupt file must not leave the asset half loaded. Scan the segments instead.
+			logger.Warn("Unusable representation data file. Reading all segments instead", "err", err.Error())
+			rp = RepData{ID: rep.Id, ContentType: string(as.ContentType), Codecs: as.Codecs, MpdTimescale: 1}
 		}
 	}
 	logger.Debug("Loading full representation by reading all segments")
